@@ -152,8 +152,9 @@ def gen(rng, nfiles=None, clash=False, modclash=False, multiuse=False, children=
         files[f"{d}/{fname}"] = "\n".join(lines) + "\n"
     if extra:
         files["src/notes.inc"] = "! an extra file\n"
+        files["src/sub/more.inc"] = "! another extra file\n"
     meta = {"clash": bool(clash), "modclash": bool(modclash) and nfiles >= 2, "multiuse": meta_multi,
-            "children": meta_children, "nfiles": nfiles}
+            "children": meta_children, "nfiles": nfiles, "extra": bool(extra)}
     return files, meta
 
 
